@@ -8,13 +8,69 @@ positions).  Also: constant indices into `args` stay below the length the declar
 arity guarantees."""
 import re
 from ..facts import op_place, op_local, lastseg, loc_of
-from .. import sem, natives
+from .. import sem, natives, synq
 
 VAL = "laythe_core::value::"
 PASS = {"branch", "unwrap", "expect", "from", "into", "clone", "deref", "deref_mut", "as_ref", "copied", "cloned",
         "unwrap_or", "unwrap_unchecked", "borrow", "as_mut", "to_owned", "from_residual", "into_iter", "iter", "by_ref"}
 CAST_NEEDS = {"to_num": "num", "to_bool": "bool", "to_obj": "obj"}
 IMPLIED = {"Number": {"num"}, "Bool": {"bool"}, "String": {"obj", "objkind:String"}, "Callable": {"obj"}, "Object": set()}
+# what a declared ParameterKind guarantees about the argument. The five rows above are the
+# reference tree's; `implied_table(S)` re-derives the table from ParameterKind::is_valid on every
+# run (so a kind added later, e.g. one that admits exactly the Enumerator objects, is understood)
+# and the F9.a table clause fails if an arm admits a value kind outside its own row.
+_implied_cache = {}
+
+
+def implied_table(S):
+    """(table, problems): kind -> implied facts, read off the arms of ParameterKind::is_valid"""
+    if id(S) in _implied_cache:
+        return _implied_cache[id(S)]
+    from ..facts import walk_expr
+    out = {"Object": set()}
+    problems = []
+    f = S.fn("laythe_core/src/signature.rs", "is_valid", impl_self="ParameterKind") if S is not None else None
+    m = [n for n in walk_expr(f["body"]) if n.get("e") == "match"] if f else []
+    if len(m) != 1:
+        res = (dict(IMPLIED), ["anchor"])
+        _implied_cache[id(S)] = res
+        return res
+    VALUE_FACT = {"Bool": "bool", "Number": "num"}
+    default_false = False
+    for arm in m[0]["arms"]:
+        p = arm["pat"]
+        body = arm["body"]
+        if p.get("p") == "wild":
+            default_false = body.get("e") == "lit" and body.get("v") == "false"
+            continue
+        if not (p.get("p") == "tuple" and len(p["elems"]) == 2):
+            problems.append("arm shape %s" % synq.pat(p))
+            continue
+        k, v = (lastseg(e.get("path", "?")) for e in p["elems"])
+        if body.get("e") == "lit" and body.get("v") == "true":
+            if k == "Object" and v == "Nil":
+                continue
+            if v in VALUE_FACT and k == v:
+                out.setdefault(k, set()).add(VALUE_FACT[v])
+            else:
+                problems.append("%s admits every %s value" % (k, v))
+        elif v == "Obj" and body.get("e") == "mcall" and body.get("m") == "is_obj_kind" and body.get("args") and (body.get("recv") or {}).get("p") == "value":
+            out.setdefault(k, set()).update({"obj", "objkind:" + lastseg(body["args"][0].get("p", "?"))})
+        elif v == "Obj" and body.get("e") == "macro" and body.get("p") == "matches":
+            toks = body.get("tokens", "")
+            kinds = set(re.findall(r"ObjectKind\s*::\s*(\w+)", toks))
+            if kinds and re.search(r"value\s*\.\s*to_obj\s*\(\s*\)\s*\.\s*kind\s*\(\s*\)", toks):
+                out.setdefault(k, set()).add("obj")
+                out.setdefault("__kinds__" + k, set()).update(kinds)
+            else:
+                problems.append("%s: unreadable matches!" % k)
+        else:
+            problems.append("%s <- %s decided by `%s`" % (k, v, synq.src(body)[:60]))
+    if not default_false:
+        problems.append("no `_ => false` default")
+    res = (out, problems)
+    _implied_cache[id(S)] = res
+    return res
 
 
 class Origins:
@@ -344,6 +400,7 @@ def run_natives(rec, F, S):
     from .f6_kinds import kind_tables
     kt = kind_tables(F)
     rows, problems = natives.table(F, S)
+    IMPLIED = implied_table(S)[0]
     R = rec.rule("F9.n", "in every native, each unchecked cast on an argument / callback result / iterator value is justified by the declared ParameterKind or a dominating kind test; constant indices into args are below the length the declared arity guarantees")
     rec.floor(R, "natives with a resolved NativeMetaBuilder", len(rows) - len(problems), 125)
     for p in problems:
@@ -607,31 +664,15 @@ def run_arity_enforcement(rec, F, S):
     if len(m) != 1:
         rec.anchor_lost("F9.a", "match in ParameterKind::is_valid")
         return
-    TRUE = set()
-    special = {}
-    default = None
-    for arm in m[0]["arms"]:
-        p = arm["pat"]
-        if p.get("p") == "tuple" and len(p["elems"]) == 2:
-            k = tuple(lastseg(e.get("path", "?")) for e in p["elems"])
-            body = arm["body"]
-            if body.get("e") == "lit" and body.get("v") == "true":
-                TRUE.add(k)
-            else:
-                special[k] = body
-        elif p.get("p") == "wild":
-            default = arm["body"]
-    ok = TRUE == {("Bool", "Bool"), ("Number", "Number"), ("Object", "Nil")} and set(special) == {("Callable", "Obj"), ("String", "Obj")} and default is not None and default.get("v") == "false"
-    if ok:
-        cb = special[("Callable", "Obj")]
-        toks = cb.get("tokens", "") if cb.get("e") == "macro" else ""
-        kinds = set(re.findall(r"ObjectKind\s*::\s*(\w+)", toks))
-        ok = kinds == {"Closure", "Fun", "Native", "Method"} and cb.get("p") == "matches"
-        sb = special[("String", "Obj")]
-        ok = ok and sb.get("e") == "mcall" and sb.get("m") == "is_obj_kind" and sb["args"] and lastseg(sb["args"][0].get("p", "")) == "String"
+    table, tprobs = implied_table(S)
+    ok = not tprobs
+    # the reference rows must still hold (a kind may be added, none may be widened)
+    ok = ok and table.get("Bool") == {"bool"} and table.get("Number") == {"num"} and table.get("String") == {"obj", "objkind:String"} and table.get("Callable") == {"obj"} and table.get("__kinds__Callable") == {"Closure", "Fun", "Native", "Method"}
+    # the short-circuit for Object in front of the match
+    ok = ok and any(n.get("e") == "if" and "ParameterKind::Object" in synq.src(n.get("cond")) for n in walk_expr(f["body"]))
     rec.inst(R, "ParameterKind::is_valid table", ok=ok, loc="laythe_core/src/signature.rs:%d" % f["line"])
     if not ok:
-        rec.finding(R, "F9.a/is_valid-table", "ParameterKind::is_valid accepts a value kind other than its own (expected Bool<-Bool, Number<-Number, Object<-anything, Callable<-Closure|Fun|Native|Method, String<-String): natives cast by the declared kind", loc="laythe_core/src/signature.rs:%d" % f["line"])
+        rec.finding(R, "F9.a/is_valid-table", "ParameterKind::is_valid accepts a value kind other than its own (expected Bool<-Bool, Number<-Number, Object<-anything, Callable<-Closure|Fun|Native|Method, String<-String, any further kind <- exactly one ObjectKind via is_obj_kind; problems: %s): natives cast by the declared kind" % (tprobs or "a reference row changed"), loc="laythe_core/src/signature.rs:%d" % f["line"])
 
 
 def run_receiver_soundness(rec, F, S=None):
@@ -654,9 +695,54 @@ def run_receiver_soundness(rec, F, S=None):
         n = sem.desc_call_name(d)
         if n in ("is_obj", "is_obj_kind", "is_kind", "is_nil"):
             continue
-        if "to_class" in s or "'Class'" in s or "super" in s:
+        same_value = d[0] == "call" and sup != ("?",) and any(a == sup for a in d[2])
+        if "to_class" in s or "'Class'" in s or "super" in s or same_value:
             extra.append((w, n or d[0]))
     ok = bool(extra)
+    # the test must exclude every class whose values are not instances: the classes BuiltInPrimitives::for_value
+    # answers for a non-Instance kind. The guard's predicate has to read each of those fields.
+    fv = F.fn("laythe_lib::builtin::BuiltInPrimitives::for_value")
+    need = set()
+    if fv is not None:
+        for b2, si, s_ in fv.stmts():
+            if s_["d"]["l"] == 0 and not s_["d"]["p"] and s_["r"]["k"] == "use":
+                pl = op_place(s_["r"]["a"])
+                if pl and pl["l"] == 1:
+                    for e in pl["p"]:
+                        if e[0] == "field" and e[3].endswith("BuiltInPrimitives"):
+                            need.add(e[2])
+    covered = set()
+    preds = []
+    for w, nm in extra:
+        t_on = h.blocks[w]["t"]["on"]
+        r = h.root_of(t_on)
+        if r[0] == "call":
+            g = F.fn(r[1]["f"])
+            if g is not None:
+                preds.append(g)
+    seen_fns = set()
+    while preds:
+        g = preds.pop()
+        if g.path in seen_fns:
+            continue
+        seen_fns.add(g.path)
+        for body in [g] + F.closures_of(g):
+            for b2, si, s_ in body.stmts():
+                for pl in sem.places_in_rvalue(s_["r"]):
+                    for e in pl["p"]:
+                        if e[0] == "field" and len(e) > 3 and e[3].endswith("BuiltInPrimitives"):
+                            covered.add(e[2])
+    if fv is None or not need:
+        rec.anchor_lost("F9.recv", "BuiltInPrimitives::for_value (the set of non-instance classes)")
+    else:
+        missing = sorted(need - covered)
+        if ok and missing:
+            ok = False
+            rec.inst(R, "op_inherit: admissibility test covers every non-instance class", ok=False, loc=h.loc, note="missing %s" % missing)
+            rec.finding(R, "F9.recv/op_inherit/uncovered/%s" % ",".join(missing), "op_inherit's superclass test does not exclude the primitive class(es) %s: their natives reinterpret the receiver by a layout an instance does not have" % missing, loc=loc_of(t["sp"]), fn=h.path)
+            return
+        elif ok:
+            rec.inst(R, "op_inherit: admissibility test covers every non-instance class", ok=True, loc=h.loc, note="covers %s" % sorted(need))
     rec.inst(R, "op_inherit: superclass admissibility test", ok=ok, loc=h.loc, note=str(extra))
     if not ok:
         rec.finding(R, "F9.recv/op_inherit", "op_inherit accepts any class as superclass: a user class can inherit the natives of a primitive class (List, Map, String, ...) whose methods reinterpret the receiver by that primitive's layout", loc=loc_of(t["sp"]), fn=h.path)
